@@ -810,16 +810,19 @@ class CriteriaText(CritBase):
     min_nontrivial = 5000
     min_classes = 12
 
+    TEXTS_ = TEXTS
+    PATTERNS_ = PATTERNS
+
     def cases(self, tier, unit):
         for n in range(1, (3 if tier == 'quick' else 4) + 1):
-            for t in lists_over(TEXTS, n):
+            for t in lists_over(self.TEXTS_, n):
                 yield ['t', t, n <= 2 or tier != 'quick']
 
     def expand(self, env, case):
         t = case[1]
         n = len(t)
         forms = ('h', 'l') if n <= 3 else ('h',)
-        for pat in PATTERNS:
+        for pat in self.PATTERNS_:
             for form in forms:
                 yield 'COUNTIF', form, [t], [pat], None
                 for vals in (NEG[:n], MIX[:n]):
@@ -829,6 +832,19 @@ class CriteriaText(CritBase):
                 for vals in (NEG[:n], MIX[:n]):
                     for fn in ('SUMIFS', 'AVERAGEIFS', 'MAXIFS'):
                         yield fn, 'h', [t, MIX[:n]], [pat, cb], vals
+
+
+class CriteriaBrackets(CriteriaText):
+    """* and ? are the only wildcards: brackets and ! in a criterion are ordinary characters (a glob library reads
+    [..] as a character class)"""
+    name = 'c11.criteria_brackets'
+    rule = ('as criteria_text over the texts {a[b]c, abc, [x], x, a!c} x patterns {a[b]*, a[b]?, [x]*, *], a[!b]?, [*, ?[*}: '
+            'brackets and ! are ordinary characters, only * and ? are wildcards; non-trivial = proper non-empty selection')
+    min_cases = 30
+    min_nontrivial = 500
+    min_classes = 6
+    TEXTS_ = ['a[b]c', 'abc', '[x]', 'x', 'a!c']
+    PATTERNS_ = ['a[b]*', 'a[b]?', '[x]*', '*]', 'a[!b]?', '[*', '?[*']
 
 
 # --------------------------------------------------------------------------
@@ -961,5 +977,5 @@ class StatSiblings(Siblings):
     ]
 
 
-SUBS = [Definitions(), Regrouping(), Large(), LongLists(), Slope(), CriteriaNumeric(), CriteriaText(),
+SUBS = [Definitions(), Regrouping(), Large(), LongLists(), Slope(), CriteriaNumeric(), CriteriaText(), CriteriaBrackets(),
         ErrorItems(), AggWholeFloats(), StatSiblings()]
